@@ -121,9 +121,13 @@ def mutants(rows, opts):
             continue
         if k in sizes:
             assigned[k] += 1
+            last_before = last[k]
             idx = row[1] or last[k] + 1
             filled[k].add(idx)
             last[k] = idx
+            if last_before == sizes[k] and sizes[k]:
+                # the implicit form: id 0 = previous id + 1, which overflows once the last slot was assigned
+                yield "entry_id_beyond_size", pos, f"{k} entry id 0 after the last slot", (k, 0, row[2])
             yield "entry_id_beyond_size", pos, f"{k} entry id size+1", (k, sizes[k] + 1, row[2])
             yield "entry_id_beyond_size", pos, f"{k} entry id 2^20", (k, 1 << 20, row[2])
             continue
@@ -146,6 +150,7 @@ def mutants(rows, opts):
                 yield "row_kind_forbidden", pos, "quad row in a GRAPHS stream", ("quad", row[1], row[2], row[3], ("default",))
         if k == "graph_start":
             yield "triple_outside_graph", pos, "graph_start deleted", None
+            yield "row_kind_forbidden", pos, "graph_start without a graph term", ("graph_start", None)
         if k == "graph_end":
             yield "triple_outside_graph", pos, "triple after graph_end", \
                 [row, ("triple", ("bnode", "x"), ("bnode", "y"), ("bnode", "z"))]
